@@ -280,6 +280,9 @@ def random_oplists(pid, rng, n):
             rng.shuffle(sh)
             ops.append({"k": "new", "recs": sh, "delim": delim})
             ops.append({"k": "load", "loader": "epm", "data": recs, "delim": delim})
+            if rng.random() < 0.3:
+                # beyond the properties: the NON-strict constructor (later records overwrite earlier ones) is specified too
+                ops.append({"k": "new", "recs": sh, "delim": delim, "strict": False, "extra": extra_probes(rng, sh, delim, upool, 8)})
             if rng.random() < 0.5:
                 # records with a HISTORY: a strict converter, a merge into one of its records, then the same Record
                 # objects (plus a record claiming what was merged, or something fresh) go through the constructor again
